@@ -90,6 +90,10 @@ def protocol_exceptions(v, acc=None):
         # an array's own truth-value protocol: `bool(array([1, 2]))` raises ValueError wherever a criterion (a bound
         # comparison, a membership test) is evaluated on it
         acc.add(ValueError)
+    if isinstance(v, L.BadEq):
+        # its own comparison protocol: `==` raises RuntimeError wherever a membership / equality criterion is evaluated on it
+        # (the flat references say so themselves; a reference nested in a compound swallows it)
+        acc.add(RuntimeError)
     if isinstance(v, (tuple, list, set, frozenset)):
         for x in v:
             protocol_exceptions(x, acc)
